@@ -630,7 +630,7 @@ func (w *c13World) genEthReal(r *Rec, emit func(string), tail func(phase string)
 	gen := &ethtypes.Header{ParentHash: c13Bytes(r, 32), UncleHash: ethUncleHash(), Coinbase: make([]byte, 20), Root: c13Bytes(r, 32), TxHash: c13Bytes(r, 32),
 		ReceiptHash: c13Bytes(r, 32), Bloom: make([]byte, 256), Difficulty: []byte{1}, Height: clienttypes.NewHeight(0, n0), GasLimit: 30000000, GasUsed: 15000000,
 		Time: t0, Extra: []byte("c13"), MixDigest: make([]byte, 32), Nonce: 0, BaseFee: big.NewInt(1000000000).Bytes()}
-	trusting := uint64(2000 + r.Rng.Intn(3)*100000000)
+	trusting := uint64(1500 + r.Rng.Intn(2)*100000000) // every second history: short enough for the earliest entries to expire
 	cs := &ethtypes.ClientState{Header: *gen, ChainId: 4, ContractAddress: c13Bytes(r, 20), TrustingPeriod: trusting, TimeDelay: 0, BlockDelay: 1}
 	cons := &ethtypes.ConsensusState{Timestamp: gen.Time, Height: gen.Height, Root: gen.Root}
 	idx, err := w.app.AppCodec().MarshalInterface(gen)
